@@ -104,3 +104,30 @@ func TestCanonicalChecker(t *testing.T) {
 		}
 	})
 }
+
+// Expected outputs of the repository's TestCanonicalize (canonical_test.go), copied as data:
+// the canonical-form validator must accept every one of them.
+var canonVectors = [][]byte{
+	{0, 0, 0, 0, 0, 0, 0, 0},
+	{0xfc, 0xff, 0xff, 0xff, 0, 0, 0, 0},
+	{0, 0, 0, 0, 1, 0, 0, 0, 0xef, 0xbe, 0, 0, 0, 0, 0, 0},
+	{0, 0, 0, 0, 0, 0, 2, 0, 0xfc, 0xff, 0xff, 0xff, 0, 0, 0, 0, 0xfc, 0xff, 0xff, 0xff, 0, 0, 0, 0},
+	{0, 0, 0, 0, 0, 0, 1, 0, 0x01, 0, 0, 0, 0x2a, 0, 0, 0, 1, 2, 3, 4, 5, 0, 0, 0},
+	{0, 0, 0, 0, 0, 0, 1, 0, 0x01, 0, 0, 0, 0x2a, 0, 0, 0, 0, 0, 0, 0, 0, 0, 0, 0},
+	{0, 0, 0, 0, 0, 0, 1, 0, 0x01, 0, 0, 0, 0x27, 0, 0, 0, 0x08, 0, 0, 0, 1, 0, 1, 0,
+		0xef, 0xbe, 0xad, 0xde, 0, 0, 0, 0, 0, 0, 0, 0, 0, 0, 0, 0,
+		0, 0, 0, 0, 0, 0, 0, 0, 0x01, 0, 0, 0, 0x32, 0, 0, 0, 'x', 'y', 'z', 'z', 'y', 0, 0, 0},
+	{0, 0, 0, 0, 0, 0, 1, 0, 0x01, 0, 0, 0, 0x07, 0, 0, 0, 0x0c, 0, 0, 0, 0, 0, 0, 0},
+	{0, 0, 0, 0, 0, 0, 1, 0, 0x01, 0, 0, 0, 0x07, 0, 0, 0, 0, 0, 0, 0, 0, 0, 0, 0},
+}
+
+func TestCanonVectors(t *testing.T) {
+	for i, v := range canonVectors {
+		if err := ref.CheckCanonical(v); err != nil {
+			t.Errorf("vector %d rejected: %v", i, err)
+		}
+		if _, err := ref.Decode([][]byte{v}, true); err != nil {
+			t.Errorf("vector %d not strictly decodable: %v", i, err)
+		}
+	}
+}
